@@ -236,6 +236,84 @@ def _parents(node, stop):
     return out
 
 
+def orient_small_scope(P, R, op, tier):
+    """C15.f (exhaustive within the scope): `orient_polygons` is interpreted by E-VEC on one polygon whose shell (and, in a second family, whose hole behind a
+    fixed shell) runs through every triple of points of a 3 x 2 grid, closed, plain and with one vertex repeated (a, b, c, a / a, a, b, c, a / a, b, b, c, a /
+    a, b, c, c, a).  Afterwards a ring with area is counter-clockwise if it is a shell and clockwise if it is a hole, its vertices are the same cycle (kept or
+    reversed), and a ring without area is untouched - however the direction is determined (signed area, turn at a hull vertex, a helper)."""
+    import itertools as _it
+    import veceval
+    pts = [(x, y) for x in (0, 1, 2) for y in (0, 1)]
+    if tier == 'thorough':
+        pts = [(x, y) for x in (0, 1, 2) for y in (0, 1, 2)]
+
+    def shoelace(ring):
+        v = ring[:-1] if len(ring) > 1 and ring[0] == ring[-1] else ring
+        return sum(v[i][0] * v[(i + 1) % len(v)][1] - v[(i + 1) % len(v)][0] * v[i][1] for i in range(len(v))) / 2.0 if len(v) >= 3 else 0.0
+    fixed_shell = [(-5, -5), (9, -5), (9, 9), (-5, 9), (-5, -5)]
+    fixed_hole = [(3, 3), (3, 4), (4, 4), (4, 3), (3, 3)]        # clockwise already
+    bad, total, undec = [], 0, None
+    for a, b, c in _it.product(pts, repeat=3):
+        for pat in ([a, b, c, a], [a, a, b, c, a], [a, b, b, c, a], [a, b, c, c, a], [a, b, c], [a, b, c, (-1, 3)]):      # closed, with a repeated vertex, and not closed
+            for role in ('shell', 'hole', 'first of two'):
+                rings = [list(pat)] if role == 'shell' else [list(fixed_shell), list(pat)] if role == 'hole' else [list(pat), list(fixed_shell), list(fixed_hole)]
+                flat, roff = [], [0]
+                for rg in rings:
+                    for (x, y) in rg:
+                        flat += [float(x), float(y)]
+                    roff.append(len(flat))
+                total += 1
+                values = list(flat)
+                poff = [0, len(rings)] if role != 'first of two' else [0, 1, 3]
+                ev = veceval.VecEval(P, op, dict(zip(op.params, (values, poff, list(roff)))), 0)
+                try:
+                    ev.block(op.node.body)
+                except veceval.Returned:
+                    pass
+                except veceval.Unsupported as e_:
+                    undec = str(e_)
+                    break
+                except (IndexError, TypeError, ValueError, ZeroDivisionError) as e_:
+                    bad.append({'ring': pat, 'role': role, 'error': f'{type(e_).__name__}: {e_}'})
+                    continue
+                out = ev.env[op.params[0]]
+                k = len(rings) - 1 if role == 'hole' else 0
+                got = [(out[i], out[i + 1]) for i in range(roff[k], roff[k + 1], 2)]
+                before = [(float(x), float(y)) for (x, y) in rings[k]]
+                a0 = shoelace(before)
+                ok = got == before or got == before[::-1]
+                closed = before[0] == before[-1]
+                if not closed:
+                    pass            # rings are closed by convention; for an unclosed one only the vertex-cycle clause is decided (the direction of an open chain is not defined here)
+                elif a0 == 0:
+                    ok = got == before
+                elif ok:
+                    a1 = shoelace(got)
+                    ok = (a1 < 0) if role == 'hole' else (a1 > 0)
+                # the fixed shell of the hole family is counter-clockwise already and must stay as it is
+                if role == 'hole' and [(out[i], out[i + 1]) for i in range(0, roff[1], 2)] != [(float(x), float(y)) for (x, y) in fixed_shell]:
+                    ok = False
+                if role == 'first of two' and [(out[i], out[i + 1]) for i in range(roff[1], roff[3], 2)] != [(float(x), float(y)) for (x, y) in fixed_shell + fixed_hole]:
+                    ok = False          # the second polygon (counter-clockwise shell, clockwise hole) is in order already
+                if not ok and len(bad) < 30:
+                    bad.append({'ring': pat, 'role': role, 'signed area before': a0, 'vertices after': got})
+                elif not ok:
+                    bad.append(None)
+            if undec:
+                break
+        if undec:
+            break
+    if undec:
+        R.abstain('C15.f', op, None, f'orient_polygons uses a construct the small-scope evaluator does not model ({undec})', construct='orient_polygons small-scope')
+        return False
+    R.count('typed_ops', total)
+    R.exhaustive_sites[f'C15.f orient_polygons: shells and holes over all point triples of a {len(pts)}-point grid, with repeated vertices'] = True
+    real = [b for b in bad if b]
+    R.check(not bad, 'C15.f', op, None, f'every ring with area ends up in its expected direction as the same vertex cycle, rings without area are untouched ({total} polygons)',
+            f'orient_polygons leaves {len(bad)} of {total} polygons wrong, e.g. {real[:2]}', construct='orient_polygons small-scope', counterexamples=real[:5])
+    return True
+
+
 def run(P, R, tier):
     op = P.func(ORI, 'orient_polygons')
     E = effects(P)
@@ -365,12 +443,20 @@ def run(P, R, tier):
     # C15.f: the flip decision over the sign of the ring's area (finite table).  sign in {-, 0, +}, expected in {ccw, cw}:
     #   sign != 0: flip  <=>  (sign > 0) != expected_ccw      (every ring with area ends up in its expected direction)
     #   sign == 0: never flip                                   (no orientation to correct; flipping it again on every call breaks idempotence)
-    _flip_table(P, R, op, loop_form)
+    decided = orient_small_scope(P, R, op, tier)
+    # the stride idiom below presupposes the form "two reversed stride stores": it is consulted only when the evaluation of the kernel as a whole abstained;
+    # the table over the sign of the area is kept where its form applies (it also covers tolerance tests, which integer rings cannot expose)
+    try:
+        _flip_table(P, R, op, loop_form)          # adds the tests the sign does not determine (tolerances) as free worlds
+    except AnalysisError:
+        if not decided:
+            raise
     # flips: both strides over the same range, reversed
     flips = [s for s in ast.walk(op.node) if isinstance(s, ast.Assign) and isinstance(s.targets[0], ast.Subscript) and isinstance(s.targets[0].slice, ast.Slice)
              and s.targets[0].slice.step is not None and norm(s.targets[0].slice.step) == '2' and norm(s.targets[0].value) == op.params[0]]
-    R.check(len(flips) == 2, 'C15.c', op, None, 'a flip writes exactly two strides (x and y)', f'a flip writes {len(flips)} stride(s)', construct='flip strides')
-    if len(flips) == 2:
+    if not decided:
+        R.check(len(flips) == 2, 'C15.c', op, None, 'a flip writes exactly two strides (x and y)', f'a flip writes {len(flips)} stride(s)', construct='flip strides')
+    if len(flips) == 2 and not decided:
         lows = sorted(norm(s.targets[0].slice.lower) for s in flips)
         ups = {norm(s.targets[0].slice.upper) for s in flips}
         base = lows[0]
